@@ -13,8 +13,11 @@
      (C16_header / C16_model_header in round 4).
    Round 4: C16_intersect_rows_b, C16_intersect_yields, C16_eager_nest_spec / C16_eager_nest
      (the nest theorem now covers `&` levels).  Still open: the instantiation of C16_level_spec
-     for populate levels (`<<`, incl. the projection pattern), intersect_<l> addressing inside
-     the nest theorem (proved at generator level only), and the glue to c16_holds.
+     for populate levels (`<<`, incl. the projection pattern).
+   Round 5: intersect_<l> addressing inside the nest theorem; C16_model_meets_spec_partial (the
+     whole oracle for nests without populate levels).  Missing for the full statement: the
+     populate levels (C16_level_spec instance for pop_loop / proj_loop: stamp discipline of the
+     saved copies, destination-side addressing against z before / after).
    NOT proved (checked by the oracle c16_holds on the implementation's files and, as verdict
    bit 4, on the model's files for every generated case): the hypotheses of C16_level_spec for
    `&` levels (yielded elements = lookup intersection, locality of its events) and for `<<`
@@ -24,7 +27,7 @@ From Coq Require Import ZArith List Bool.
 From FT Require Import Model.Base Model.Obs Model.C16Metrics Model.C16Nest Model.C16Check
                        Proofs.C16MetricsP Proofs.C16CheckP Proofs.C16AndP
                        Proofs.C16CoreP Proofs.C16RefP Proofs.C16NestP Proofs.C16PlainP
-                       Proofs.C16AndLevelP Proofs.C16EagerP.
+                       Proofs.C16AndLevelP Proofs.C16EagerP Proofs.C16GlueP.
 Import ListNotations.
 Open Scope Z_scope.
 
@@ -124,35 +127,35 @@ Print Assumptions C16_trace_is_emits.
    and addressed ([loc_ok]).  The invariant used: incIter only raises the innermost component in
    use, endIter resets it after its last row, bodies restore the vector (outer components
    constant during an inner traversal). *)
-Theorem C16_level_spec : forall tr n i L lv' pt e items fin, length pt = i ->
-  Forall (item_ok tr n i lv' pt) items -> Forall (local i) fin ->
+Theorem C16_level_spec : forall zs tr n i L lv' pt e items fin, length pt = i ->
+  Forall (item_ok zs tr n i lv' pt) items -> Forall (local i) fin ->
   children pt items = kids L (pt, e) ->
   lsafe (0, None) (skels i items ++ fin) = true ->
-  loc_ok tr i L pt e (skels i items ++ fin) ->
-  spec tr n i (L :: lv') pt e
+  loc_ok zs tr i L pt e (skels i items ++ fin) ->
+  spec zs tr n i (L :: lv') pt e
        ([EReg (Z.of_nat i)] ++ flat_items (Z.of_nat i) items ++ fin ++ [EEnd (Z.of_nat i)]).
 Proof. exact GL. Qed.
 Print Assumptions C16_level_spec.
 
 (* C16_plain_nest_spec: every nest of `for c, p in <eager fiber>` levels - any depth, any operand
    trees (explicit defaults and empty sub-fibers included), any traces - meets [spec]. *)
-Theorem C16_plain_nest_spec : forall n tr zshape nz m lv, forallb plain_level lv = true ->
+Theorem C16_plain_nest_spec : forall zs n tr zshape nz m lv, forallb plain_level lv = true ->
   forall i pt e z, length pt = i -> labinv i z ->
-  spec tr n i lv pt e (fst (run tr zshape nz m lv i pt e z)).
+  spec zs tr n i lv pt e (fst (run tr zshape nz m lv i pt e z)).
 Proof. exact plain_nest_spec. Qed.
 Print Assumptions C16_plain_nest_spec.
 
 (* ... read at the top of a session: loop_order = 0..d-1 (d = levels entered) and every file is
    [header iff its rank was reached] ++ rows that are stamp-ordered (strictly for iter) and equal
    to the reference iteration space with storage positions. *)
-Theorem C16_plain_nest : forall n tr zshape nz m lv keys m0 e z,
+Theorem C16_plain_nest : forall zs n tr zshape nz m lv keys m0 e z,
   forallb plain_level lv = true ->
   let evs := fst (run tr zshape nz m lv 0 [] e {| th_z := z; th_lab := lab0 |}) in
   let st' := exec n (init_state keys true m0) evs in
   let d := dr lv [([], e)] in
   m_lo st' = iota d
   /\ forall kk, In kk keys -> exists data,
-       content st' kk = Some (hdrs kk 0 d ++ data) /\ rows_ok tr 0 [] lv [] e kk data.
+       content st' kk = Some (hdrs kk 0 d ++ data) /\ rows_ok zs tr 0 [] lv [] e kk data.
 Proof. exact plain_nest_top. Qed.
 Print Assumptions C16_plain_nest.
 
@@ -178,26 +181,27 @@ Proof. exact and_go_yields. Qed.
 Print Assumptions C16_intersect_yields.
 
 (* C16_eager_nest_spec / C16_eager_nest: every nest WITHOUT populate levels - eager `for` over a
-   compressed fiber and `for .. in x & y` over compressed or uncompressed operands, any depth,
+   compressed or (round 5) uncompressed fiber and `for .. in x & y` over compressed or
+   uncompressed operands, any depth,
    strictly sorted operand trees (explicit defaults and empty sub-fibers included) - meets
    [spec]: counter vector restored, loop_order = 0..d-1, stamps ordered in every trace (strictly
    for iter), and iter rows = the reference iteration space (lookup intersection for `&`) with
    stream / storage positions.  The label state is the one Metrics keeps ([labinv]: no matches,
    counters of inner ranks reset), so the dynamic labels of `&` are 0 and 1. *)
-Theorem C16_eager_nest_spec : forall n tr zshape nz m lv, forallb eager_level lv = true ->
-  forall i pt e z, length pt = i -> labinv i z -> env_ok e ->
-  spec tr n i lv pt e (fst (run tr zshape nz m lv i pt e z)).
+Theorem C16_eager_nest_spec : forall zs n tr zshape nz m lv, forallb eager_level lv = true ->
+  forall i pt e z, length pt = i -> labinv i z -> env_ok e -> nest_int_ok tr i lv e ->
+  spec zs tr n i lv pt e (fst (run tr zshape nz m lv i pt e z)).
 Proof. exact eager_nest_spec. Qed.
 Print Assumptions C16_eager_nest_spec.
 
-Theorem C16_eager_nest : forall n tr zshape nz m lv keys m0 e z,
-  forallb eager_level lv = true -> env_ok e ->
+Theorem C16_eager_nest : forall zs n tr zshape nz m lv keys m0 e z,
+  forallb eager_level lv = true -> env_ok e -> nest_int_ok tr 0 lv e ->
   let evs := fst (run tr zshape nz m lv 0 [] e {| th_z := z; th_lab := lab0 |}) in
   let st' := exec n (init_state keys true m0) evs in
   let d := dr lv [([], e)] in
   m_lo st' = iota d
   /\ forall kk, In kk keys -> exists data,
-       content st' kk = Some (hdrs kk 0 d ++ data) /\ rows_ok tr 0 [] lv [] e kk data.
+       content st' kk = Some (hdrs kk 0 d ++ data) /\ rows_ok zs tr 0 [] lv [] e kk data.
 Proof. exact eager_nest_top. Qed.
 Print Assumptions C16_eager_nest.
 
@@ -207,6 +211,34 @@ Example C16_eager_nest_nonvacuous :
   let e := [Node [(0, Node [(0, Leaf 1)]); (2, Node [(1, Leaf 2)])];
             Node [(0, Node [(0, Leaf 3)]); (2, Node [(1, Leaf 4); (2, Leaf 0)])]] in
   forallb eager_level [L1; L2] = true /\ forallb sorted_t e = true /\ dr [L1; L2] [([], e)] = 2%nat.
+Proof. vm_compute. auto. Qed.
+
+(* Round 5.  Inside the nest theorem the rows of a registered intersect_<l> trace are now addressed
+   too ([nest_int_ok]: where such a trace is registered the operands are uncompressed or store no
+   empty element - exactly the complement of known-finding region 1), with zs = true also the
+   (empty) destination-side traces of nests without populate.
+
+   C16_model_meets_spec_partial: the faithful model satisfies the WHOLE oracle - header =
+   ref_header, widths, lexicographic stamp order (strict for iter), rows = expect_at over the
+   reference iteration space, unregistered ranks leave empty files, every threshold and the
+   consumable run give the same rows - for every well-formed case outside region 1 whose nest has
+   no populate level ([eager_level]: `for` over a compressed or uncompressed fiber, or
+   `for .. in x & y`, x <> y, compressed or uncompressed - every non-populate level the model has). *)
+Theorem C16_model_meets_spec_partial : forall c,
+  c16_wf c = true -> c16_region c = 0 -> forallb eager_level (k_levels c) = true ->
+  c16_holds c (c16_model c) = true.
+Proof. exact model_meets_spec_eager. Qed.
+Print Assumptions C16_model_meets_spec_partial.
+
+Example C16_model_meets_spec_partial_nonvacuous :
+  let c := {| k_levels := [ {| l_pop := false; l_src := SAnd 0 1; l_ufmt := false; l_zufmt := false; l_proj := None; l_shape := 4 |};
+                            {| l_pop := false; l_src := SFib 1; l_ufmt := false; l_zufmt := false; l_proj := None; l_shape := 3 |} ];
+              k_inputs := [ Node [(0, Node [(0, Leaf 1)]); (2, Node [(1, Leaf 2)])];
+                            Node [(0, Node [(1, Leaf 3)]); (1, Node [(0, Leaf 1)]); (2, Node [(0, Leaf 4); (1, Leaf 5)])] ];
+              k_z := Node []; k_zshape := []; k_skip := 0;
+              k_keys := [(0,0,0); (0,1,0); (0,1,1); (1,0,0); (1,3,0); (2,0,0)];
+              k_thresholds := [2; 1000] |} in
+  c16_wf c = true /\ c16_region c = 0 /\ forallb eager_level (k_levels c) = true.
 Proof. vm_compute. auto. Qed.
 
 (* C16_model_meets_spec, full statement (NOT proved):
